@@ -572,6 +572,85 @@ theorem instantiateConfig_cipher (cfg : Config) (props : Props) (h : instantiate
     cases hci
     exact Or.inr ⟨row, args, c, hcfg, hc, rfl⟩
 
+/-! ## the candidate validation patch is sound -/
+
+theorem pyCmp_int (op : CmpOp) (i j : Int) : pyCmp op (.val (.int i)) (.val (.int j)) = .ok (cmpRat op (i : Rat) (j : Rat)) := by
+  simp [pyCmp, numOf, pure, Except.pure]
+
+theorem intLike_cases (a : Arg) (h : (intLike a).isSome = true) : (∃ i, a = .val (.int i)) ∨ (∃ b, a = .val (.bool b)) := by
+  cases a with
+  | mapping => simp [intLike] at h
+  | val v => cases v <;> simp [intLike] at h ⊢
+
+theorem blake2bFix_sound (args : Args) (h : runGuards args blake2bFixGuards = .ok ()) :
+    intBetween (argOf args "length") 16 64 = true := by
+  simp only [blake2bFixGuards, runGuards, evalCond, evalTerm] at h
+  cases hl : lookupArg args "length" with
+  | error e => simp [hl, bind, Except.bind] at h
+  | ok a =>
+    rw [argOf_of_lookupArg args _ _ hl]
+    simp only [hl, bind, Except.bind, pure, Except.pure] at h
+    cases hi : (intLike a).isSome with
+    | false => simp [hi, throw, throwThe, MonadExceptOf.throw] at h
+    | true =>
+      rcases intLike_cases a hi with ⟨i, rfl⟩ | ⟨b, rfl⟩
+      · simp only [hi, pyCmp_int] at h
+        simp [cmpRat, throw, throwThe, MonadExceptOf.throw] at h
+        have e1 : ((16 : Rat) ≤ (i : Rat)) ↔ 16 ≤ i := by exact_mod_cast (Rat.intCast_le_intCast (a := 16) (b := i))
+        have e2 : ((i : Rat) ≤ (64 : Rat)) ↔ i ≤ 64 := by exact_mod_cast (Rat.intCast_le_intCast (a := i) (b := 64))
+        simp only [e1, e2] at h
+        by_cases h16 : 16 ≤ i <;> by_cases h64 : i ≤ 64 <;> simp [h16, h64, intBetween, intLike] at h ⊢
+      · have n0 : ¬ ((16 : Rat) ≤ 0) := by decide
+        have n1 : ¬ ((16 : Rat) ≤ 1) := by decide
+        cases b <;> simp [pyCmp, numOf, cmpRat, intLike, pure, Except.pure, throw, throwThe, MonadExceptOf.throw, n0, n1, errOfName] at h
+
+theorem pyCmp_intLike (op : CmpOp) (a b : Arg) (i j : Int) (ha : intLike a = some i) (hb : intLike b = some j) :
+    pyCmp op a b = .ok (cmpRat op (i : Rat) (j : Rat)) := by
+  cases a with
+  | mapping => simp [intLike] at ha
+  | val va =>
+    cases b with
+    | mapping => simp [intLike] at hb
+    | val vb =>
+      cases va <;> simp [intLike] at ha <;> cases vb <;> simp [intLike] at hb <;> subst ha <;> subst hb
+      · simp [pyCmp, numOf, pure, Except.pure]
+      · rename_i x y; cases y <;> simp [pyCmp, numOf, pure, Except.pure]
+      · rename_i x y; cases x <;> simp [pyCmp, numOf, pure, Except.pure]
+      · rename_i x y; cases x <;> cases y <;> simp [pyCmp, numOf, pure, Except.pure]
+
+theorem cmpRat_lt_int (i j : Int) : cmpRat .lt (i : Rat) (j : Rat) = decide (i < j) := by
+  simp [cmpRat, Rat.intCast_lt_intCast]
+
+theorem cmpRat_gt_int (i j : Int) : cmpRat .gt (i : Rat) (j : Rat) = decide (j < i) := by
+  simp [cmpRat, Rat.intCast_lt_intCast]
+
+theorem chunkerFix_sound (args : Args) (h : runGuards args chunkerFixGuards = .ok ()) :
+    ∃ mn mx, intLike (argOf args "min_length") = some mn ∧ intLike (argOf args "max_length") = some mx ∧ 1 ≤ mn ∧ mn ≤ mx := by
+  simp only [chunkerFixGuards, runGuards, evalCond, evalTerm] at h
+  cases hmn : lookupArg args "min_length" with
+  | error e => simp [hmn, bind, Except.bind] at h
+  | ok a =>
+  cases hmx : lookupArg args "max_length" with
+  | error e =>
+    simp only [hmn, hmx, bind, Except.bind, pure, Except.pure] at h
+    cases hi : (intLike a).isSome <;> simp [hi, throw, throwThe, MonadExceptOf.throw] at h
+  | ok b =>
+    rw [argOf_of_lookupArg args _ _ hmn, argOf_of_lookupArg args _ _ hmx]
+    simp only [hmn, hmx, bind, Except.bind, pure, Except.pure] at h
+    cases hia : intLike a with
+    | none => simp [hia, throw, throwThe, MonadExceptOf.throw] at h
+    | some i =>
+    cases hib : intLike b with
+    | none => simp [hia, hib, throw, throwThe, MonadExceptOf.throw] at h
+    | some j =>
+      have c1 := pyCmp_intLike .lt a (.val (.int 1)) i 1 hia rfl
+      have c2 := pyCmp_intLike .gt a b i j hia hib
+      simp only [hia, hib, c1, c2, cmpRat_lt_int, cmpRat_gt_int] at h
+      refine ⟨i, j, rfl, rfl, ?_⟩
+      by_cases h1 : i < 1 <;> by_cases h2 : j < i <;>
+        simp [h1, h2, throw, throwThe, MonadExceptOf.throw] at h
+      omega
+
 /-! ## what validation leaves in the settings -/
 
 theorem lookup_mem {β : Type} (k : String) (l : List (String × β)) (v : β) (h : l.lookup k = some v) : ∃ p ∈ l, p.1 = k := by
@@ -621,6 +700,123 @@ theorem validated_encryption_keys (s : Settings) (h : validateInit s = .ok ()) (
       obtain ⟨q, hq, hqp⟩ := validateShape_keys _ _ h _ hmem
       exact ⟨q, hq, by simpa [hpk] using hqp⟩
     · rename_i hl; cases h
+
+/-! ## if the source validates the hashing and chunking slots, acceptance covers them too -/
+
+theorem instantiateConfig_slots (cfg : Config) (props : Props) (h : instantiateConfig cfg = .ok props) :
+    construct cfg.chunking.1 cfg.chunking.2 = .ok props.chunker ∧ construct cfg.hashing.1 cfg.hashing.2 = .ok props.hasher := by
+  unfold instantiateConfig at h
+  repeat' split at h
+  all_goals first | (cases h; done) | skip
+  cases h
+  exact ⟨by assumption, by assumption⟩
+
+theorem slotConfig_kind (slot : String) (kv : Args) (dflt base : String) (p : AdapterRow × Args)
+    (h : slotConfig slot kv dflt = .ok p) (hk : kindChecks.lookup slot = some base) : hasKind p.1 base = true := by
+  unfold slotConfig at h
+  split at h
+  · cases h
+  · rw [hk] at h
+    simp only at h
+    split at h
+    · cases h; assumption
+    · cases h
+
+theorem construct_guards (row : AdapterRow) (args : Args) (i : Inst) (h : construct row args = .ok i) :
+    runGuards args row.guards = .ok () := by
+  unfold construct at h
+  split at h
+  · cases h
+  · rename_i u hu; cases u; exact hu
+
+theorem sha_usable (row : AdapterRow) (args : Args) (i : Inst) (hk : hasKind row "HashAdapter" = true)
+    (hn : row.name = "sha2" ∨ row.name = "sha3")
+    (hgd : row.guards = [⟨.notIn (.param "bits") [224, 256, 384, 512], "ValueError"⟩])
+    (hcon : construct row args = .ok i) : hasherUsable (row, args) = true := by
+  have hne1 : (row.name == "aes_gcm") = false := by rcases hn with h | h <;> rw [h] <;> decide
+  have hne2 : (row.name == "chacha20_poly1305") = false := by rcases hn with h | h <;> rw [h] <;> decide
+  have hne3 : (row.name == "blake2b") = false := by rcases hn with h | h <;> rw [h] <;> decide
+  have hsha : (row.name == "sha2" || row.name == "sha3") = true := by rcases hn with h | h <;> rw [h] <;> decide
+  unfold construct at hcon
+  rw [hgd] at hcon
+  simp only [hne1, hne2, hsha, runGuards, evalCond, evalTerm] at hcon
+  cases hl : lookupArg args "bits" with
+  | error e => simp [hl, bind, Except.bind] at hcon
+  | ok a =>
+    simp only [hl, bind, Except.bind, pure, Except.pure] at hcon
+    cases a with
+    | mapping => simp [pyIn, throw, throwThe, MonadExceptOf.throw] at hcon
+    | val v =>
+      cases v with
+      | int j =>
+        cases hin : pyIn (.val (.int j)) [224, 256, 384, 512] with
+        | false => simp [hin, throw, throwThe, MonadExceptOf.throw] at hcon
+        | true =>
+          simp only [hasherUsable, hk, hne3, hsha, argOf_of_lookupArg args _ _ hl, Bool.true_and]
+          simpa [pyIn, isPlainIntIn] using hin
+      | bool b => cases b <;> simp [pyIn, throw, throwThe, MonadExceptOf.throw] at hcon
+      | float q =>
+        cases hin : pyIn (.val (.float q)) [224, 256, 384, 512] <;> simp [hin, throw, throwThe, MonadExceptOf.throw] at hcon
+      | nan => simp [pyIn, throw, throwThe, MonadExceptOf.throw] at hcon
+      | str s => simp [pyIn, throw, throwThe, MonadExceptOf.throw] at hcon
+      | none => simp [pyIn, throw, throwThe, MonadExceptOf.throw] at hcon
+
+/-- hashing slot: if the kind is checked and blake2b's own guards enforce the digest range, a constructed hasher is usable -/
+theorem hasher_usable_of (row : AdapterRow) (args : Args) (i : Inst) (hmem : row ∈ adapterTable)
+    (hkind : hasKind row "HashAdapter" = true) (hcon : construct row args = .ok i)
+    (hb : ∀ args, runGuards args (guardsOf "blake2b") = .ok () → intBetween (argOf args "length") minDigestBytes 64 = true) :
+    hasherUsable (row, args) = true := by
+  have hg := construct_guards row args i hcon
+  simp only [adapterTable, List.mem_cons, List.not_mem_nil, or_false] at hmem
+  rcases hmem with rfl | rfl | rfl | rfl | rfl | rfl | rfl
+  · simp [hasKind] at hkind
+  · simp [hasKind] at hkind
+  · simp [hasKind] at hkind
+  · -- blake2b
+    have := hb args hg
+    simp [hasherUsable, hasKind, this]
+  · -- sha2
+    exact sha_usable _ args i (by decide) (Or.inl rfl) rfl hcon
+  · exact sha_usable _ args i (by decide) (Or.inr rfl) rfl hcon
+  · simp [hasKind] at hkind
+
+/-- chunking slot: if the kind is checked and the chunker's own guards enforce integer lengths 1 ≤ min ≤ max -/
+theorem chunker_usable_of (row : AdapterRow) (args : Args) (i : Inst) (hmem : row ∈ adapterTable)
+    (hkind : hasKind row "ChunkerAdapter" = true) (hcon : construct row args = .ok i)
+    (hgc : ∀ args, runGuards args (guardsOf "gclmulchunker") = .ok () →
+      ∃ mn mx, intLike (argOf args "min_length") = some mn ∧ intLike (argOf args "max_length") = some mx ∧ 1 ≤ mn ∧ mn ≤ mx) :
+    chunkerUsable (row, args) = true := by
+  have hg := construct_guards row args i hcon
+  simp only [adapterTable, List.mem_cons, List.not_mem_nil, or_false] at hmem
+  rcases hmem with rfl | rfl | rfl | rfl | rfl | rfl | rfl
+  · simp [hasKind] at hkind
+  · simp [hasKind] at hkind
+  · simp [hasKind] at hkind
+  · simp [hasKind] at hkind
+  · simp [hasKind] at hkind
+  · simp [hasKind] at hkind
+  · obtain ⟨mn, mx, h1, h2, h3, h4⟩ := hgc args hg
+    simp [chunkerUsable, hasKind, h1, h2, h3, h4]
+
+/-- If `/repo` checks the adapter kind of the hashing and chunking slots and the constructors of blake2b and gclmulchunker
+enforce their ranges, every accepted settings dictionary lies in the region of `accept_implies_usable_partial`. -/
+theorem checkedElsewhere_of_source_checks
+    (hk1 : kindChecks.lookup "hashing" = some "HashAdapter") (hk2 : kindChecks.lookup "chunking" = some "ChunkerAdapter")
+    (hb : ∀ args, runGuards args (guardsOf "blake2b") = .ok () → intBetween (argOf args "length") minDigestBytes 64 = true)
+    (hgc : ∀ args, runGuards args (guardsOf "gclmulchunker") = .ok () →
+      ∃ mn mx, intLike (argOf args "min_length") = some mn ∧ intLike (argOf args "max_length") = some mx ∧ 1 ≤ mn ∧ mn ≤ mx)
+    (s : Option Settings) (pw : Bool) (st : St) (hr : runStages s pw canonicalStages {} = (st, none)) :
+    checkedElsewhere s = true := by
+  obtain ⟨cfg, props, hmk, hinst, _, _⟩ := accepted_went s pw st hr
+  obtain ⟨kvh, kvc, h1, h2, h3, h4, _⟩ := makeConfig_parts (s.getD []) cfg hmk
+  obtain ⟨hcc, hch⟩ := instantiateConfig_slots cfg props hinst
+  have hH : hasherUsable cfg.hashing = true :=
+    hasher_usable_of cfg.hashing.1 cfg.hashing.2 props.hasher (slotConfig_mem _ _ _ _ _ h2)
+      (slotConfig_kind _ _ _ _ _ h2 hk1) hch hb
+  have hC : chunkerUsable cfg.chunking = true :=
+    chunker_usable_of cfg.chunking.1 cfg.chunking.2 props.chunker (slotConfig_mem _ _ _ _ _ h4)
+      (slotConfig_kind _ _ _ _ _ h4 hk2) hcc hgc
+  simp [checkedElsewhere, hashingInputOk, chunkingInputOk, h1, h2, h3, h4, hH, hC]
 
 /-! ## the canonical order ends with the upload -/
 
